@@ -1,17 +1,21 @@
 """C17 — see lifecycle_common.py (state-machine theorems + trace oracles)."""
 from props import lifecycle_common as L
-from props.parts import streamstate
+from props.parts import streamstate, dispatch
 
-VO_TARGETS = L.VO_TARGETS
-AUDIT = [("H2V.Properties.StreamState", streamstate.THEOREMS["C17"])]
+VO_TARGETS = L.VO_TARGETS + [dispatch.TARGETS["C17"]]
+AUDIT = [("H2V.Properties.StreamState", streamstate.THEOREMS["C17"]),
+         (dispatch.MODULES["C17"], dispatch.THEOREMS["C17"])]
 
 
 def correspond(rep, tier, seed):
-    rep.partial.append("PARTIAL: the theorems are about the per-stream state machine (state.rs) only; which caller invokes which transition, "
-                       "queues, frame emission order and wake-ups are explored by the trace oracles on the real crate, not proved")
+    rep.partial.append("PARTIAL: two layers of theorems - the per-stream state machine (state.rs, Properties/StreamState.v) and the dispatch layer "
+                       "(which caller invokes which transition for which frame / API call, what is queued, what leaves the queues: "
+                       "Properties/C17_wire.v, lock-stepped against streams.rs / recv.rs / send.rs / prioritize.rs); wake-ups are C06; see the "
+                       "next entry for what the dispatch layer leaves open")
     ss_bad, n = L.correspond(rep, "C17", tier, seed)
     if ss_bad and n == 0:
         L.search(rep, "C17", tier, seed)
+    dispatch.correspond_for(rep, "C17", tier, seed, lambda r, t, s: L.search(r, "C17", t, s))
 
 
 def search(rep, tier, seed, reason=""):
